@@ -106,7 +106,14 @@ package html
 //@   loop * candidate nameEnd == nameStart ==> l.r.pos == old(l.r.pos) && l.r.buf[l.r.pos] == '='
 //@   loop * decreases len(l.r.buf) - l.r.pos
 
+// dqPar: parity of the double quotes in a byte range. Inside an svg/math subtree a '</' between double quotes is attribute
+// text, not an end tag: the scanner's quote flag must be exactly this parity over the bytes scanned so far (taken over the
+// memory at entry: the scanner never writes the buffer).
+//@ fold dqPar(s, k, acc) init 0 := ite(s[k] == '"', 1 - acc, acc)
+//@ pred xmlQ(l, q) := old(dqPar(l.r.buf, l.r.pos, q))
 //@ func Lexer.shiftXML
+//@   loop 1 invariant[F] @quote-parity: (inQuote ==> xmlQ(l, l.r.pos) == 1) && (!inQuote ==> xmlQ(l, l.r.pos) == 0)
+//@   loop 2 invariant[F] @quote-parity-name: !inQuote && xmlQ(l, l.r.pos) == 0
 // element names are looked up in lower case (the hash table holds lower-case names only)
 //@   callsite html.ToHash[F,C09] @lowered: forall(k, 0, len(arg0), !('A' <= arg0[k] && arg0[k] <= 'Z'))
 //@   preserves[S] hScan(l)
@@ -121,7 +128,12 @@ package html
 //@   loop * candidate 0 <= mark
 //@   loop * decreases len(l.r.buf) - l.r.pos
 
+// a tag name ends at ASCII white space, '>' or '/>' (also at the end of input and at a template delimiter)
+//@ pred htmlNameEnd(c, c1) := c == ' ' || c == '\t' || c == '\n' || c == '\r' || c == '\f' || c == '>' || (c == '/' && c1 == '>')
 //@ func Lexer.shiftStartTag
+//@   requires[F] @at-name: l.r.pos == l.r.start + 1
+//@   ensures[F,C09,local] @name-extent: result0 == StartTagToken ==> forall(k, old(l.r.pos), old(l.r.pos) + len(l.text), !htmlNameEnd(old(l.r.buf[k]), old(l.r.buf[k+1])))
+//@   loop 1 invariant[F] @name-scan: forall(k, old(l.r.pos), l.r.pos, !htmlNameEnd(l.r.buf[k], l.r.buf[k+1])) && sameBytesExcept(0, 0) && l.r.start == old(l.r.start)
 // element names are looked up in lower case (the hash table holds lower-case names only)
 //@   callsite html.ToHash[F,C09] @lowered: forall(k, 0, len(arg0), !('A' <= arg0[k] && arg0[k] <= 'Z'))
 //@   preserves[S] hScan(l)
